@@ -83,6 +83,10 @@ THEOREMS = [
      "forall (S : Type) (ps : plugins_chk S) (blocked : bytes -> S -> bool) (env_step : N -> S -> S * bool) "
      "(st : lts_state S) (ev : event), (forall k, ev <> EHandle k) -> (forall e, ev <> EEnv e) -> "
      "l_listener (lstep ps blocked env_step st ev) = l_listener st /\\ l_env (lstep ps blocked env_step st ev) = l_env st"),
+    ("rejected_requests_schedule_independent",
+     "forall (S : Type) (ps : plugins_chk S) (req : bytes), (utf8_decode req = None \\/ "
+     "exists line, utf8_decode req = Some line /\\ lookup_chk (request_name (quoted_str_split line)) ps = None) -> "
+     "exists d, starts_with (B \"error\") d = true /\\ forall s, handle_chk ps req s = Ok ({| hr_data := d; hr_close := false |}, s)"),
     ("fixture_plugins_total", "plugins_total fx_plugins_chk"),
 ]
 RULE = ("(a) direct calls of kvarn_utils::encode_quoted_str / quoted_str_split / join against the Coq model (correspondence) and, for the "
@@ -370,7 +374,8 @@ def place(prefix, L, before, ch, rel, chunk, tail=b"zz"):
 def long_requests(rng, quick):
     """(kind, request) pairs around every boundary"""
     out = []
-    forms = [(b"", "req"), (b"nope ", "req"), (b"ping ", "req"), (b"ping ", "arg"), (b"t-fail ", "req"), (b"clear all ", "arg"), (b'"ping" "', "req"), (b"t-args x ", "arg")]
+    forms = [(b"", "req"), (b"nope ", "req"), (b"ping ", "req"), (b"ping ", "arg"), (b"t-fail ", "req"), (b"clear all ", "arg"), (b'"ping" "', "req"), (b"t-args x ", "arg"),
+             (b"shutdown ", "arg"), (b"wait ", "arg")]
     for L in SMALL_BOUNDS + BIG_BOUNDS:
         big = L > 4097
         chunk = 700 if big else None
@@ -380,6 +385,8 @@ def long_requests(rng, quick):
                 if quick and L > 9000 and (w, before) not in ((2, 1), (3, 2), (4, 1), (4, 3)):
                     continue
                 chars = CHARS[w] if (not quick and not big) else [CHARS[w][(L + fi) % len(CHARS[w])]]
+                if prefix == b"shutdown ":
+                    chars = CHARS[w][:1]      # echoed with {:?}: printable characters only (see ASSUMPTIONS)
                 for chs in chars:
                     ch = chs.encode("utf-8")
                     tail = b'zz"' if prefix.endswith(b'"') else b"zz"
@@ -869,7 +876,8 @@ LEVEL_TEXT = ("Machine-checked Coq theorems over a code-point-level model of enc
               "socket_never_wedged -- in the transition system of the listener with any number of connections, in every state and after "
               "every event sequence of the other connections and the environment, a connection whose request is complete keeps it and, as "
               "soon as its handler is not blocked, gets its reply by its own step, which changes no other connection; accept_never_blocked "
-              "-- a new connection is accepted and read whatever the others do; clients_cannot_close. The model is tied to /repo on every run by a differential run of the "
+              "-- a new connection is accepted and read whatever the others do; clients_cannot_close; rejected requests get the same "
+              "error reply at whatever point of the interleaving they are handled. The model is tied to /repo on every run by a differential run of the "
               "real functions (bounded-exhaustive over {a, SP, \", ', \\} + random Unicode) and of real unix-socket sessions against a running "
               "kvarn instance, sequential and with several connections pending at once, long requests around every length constant, "
               "plus model-independent oracles on every reply.")
